@@ -34,6 +34,9 @@ func runC02(c *Check) {
 		c03Guarded(c, "C02.O8", m)
 		c03Typestate(c, "C02", m, c03ClosedGlobal(m))
 	}
+	// the router's own subscriber decorator stands between the subscriber and the run loop: what it takes from the
+	// subscription it hands over (decided as C07.O7; a message it drops is neither handled nor settled)
+	c07Decorator(c, "C02")
 }
 
 // c02Core holds O1..O6; shared with C01.
@@ -256,6 +259,7 @@ func c02Core(c *Check, P string, r *RouterRoles) {
 
 	c02HelperResult(c, P+".O5", r, pubErrCalls)
 	c02PanicSafeLocks(c, P+".O4", r)
+	c02RecoverKeepsFailure(c, P+".O4", r)
 
 	// O6 NO-PUBLISHER
 	if np := c.P.Method("message", "Router", "AddNoPublisherHandler"); c.Use(P+".O6", np, "Router.AddNoPublisherHandler") {
@@ -698,4 +702,48 @@ func mergedNilGuard(fn *ssa.Function, v ssa.Value, isRes func(ssa.Value) bool, v
 		return true
 	}
 	return rec(v) && hasRes
+}
+
+// c02RecoverKeepsFailure: a function of the message package that reports
+// failure through an error result (publisher decorators, Publish wrappers) and
+// recovers panics in a deferred closure must turn the panic into a non-nil
+// error *result*. With unnamed results the recovered call returns zero values:
+// a panicking publisher would look like a successful Publish and the consumed
+// message would be Acked.
+func c02RecoverKeepsFailure(c *Check, id string, r *RouterRoles) {
+	n := 0
+	for _, fn := range c.P.SrcFuncs("message") {
+		res := fn.Signature.Results()
+		if fn.Parent() != nil || res.Len() == 0 || !IsErrorType(res.At(res.Len()-1).Type()) {
+			continue
+		}
+		AllInstrs(fn, func(in ssa.Instruction) {
+			d, ok := in.(*ssa.Defer)
+			if !ok {
+				return
+			}
+			cl := FuncOfValue(d.Call.Value)
+			if cl == nil {
+				cl = CalleeFn(&d.Call)
+			}
+			if cl == nil || len(BuiltinCalls(cl, "recover")) == 0 {
+				return
+			}
+			n++
+			cell := ResultCell(fn, res.Len()-1)
+			okStore := false
+			if name := res.At(res.Len() - 1).Name(); name == "" || name == "_" || (cell != nil && cell.Comment != name) {
+				cell = nil // not a named result: what the deferred closure assigns is not what the caller gets
+			}
+			if cell != nil {
+				for _, st := range StoresToCellIn(cl, cell) {
+					if ProvablyNonNil(firstOrigin(st.Val), func(ssa.Value) bool { return false }) {
+						okStore = true
+					}
+				}
+			}
+			c.Report(okStore, id, "RECOVER-KEEPS-FAILURE", fn, d.Pos(), "deferred recover in "+FnName(fn), "a recovered panic is reported through the named error result (with unnamed results the call would return nil: a panicking publisher would count as a successful Publish)")
+		})
+	}
+	c.Note(id, "RECOVER-KEEPS-FAILURE/scan", r.Dispatch, r.Dispatch.Pos(), "package message", fmt.Sprintf("%d deferred recover closures in error-returning functions of package message examined", n))
 }
